@@ -406,7 +406,7 @@ def run(ctx):
              "tell_many_at_point, pending marks, discards, re-tells; 5 loss functions, noise-free/gaussian/heteroscedastic/"
              "dyadic/heavy noise, several delta/alpha/min_samples/max_samples/neighbor_sampling/min_error); "
              "non-trivial = distinct op-line sequence",
-        samples=[cases_a[0]["lines"][:6], cases_b[0]["lines"][:6], [l[:160] for l in cases_c[0]["lines"][:6]]],
+        samples=[c[0]["lines"][:6] for c in (cases_a, cases_b) if c] + [[l[:160] for l in c["lines"][:6]] for c in cases_c[:1]],
         evaluations=len(cases_a) + len(cases_b) + len(cases_c), distinct=nt,
         explanation="Avg.lean / Avg1D.lean are proved about over ordered fields (moments, variance identity, sample std, loss "
                     "formula, fresh seeds with pigeonhole; per-abscissa mean/count/error, batch = single, under-sampled set) and "
